@@ -94,7 +94,12 @@ async fn one_config(ctx: &Ctx, out: &mut Outcome, ci: usize, l1: usize, l2: Opti
         }
     };
     let inner = Arc::new(InMemory::new());
-    let store = Arc::new(CachedObjectStore::new(inner.clone(), cache.clone()));
+    // every other configuration reads from a backing store whose whole-object downloads arrive in pieces and are
+    // now and then cut in the middle of the body: such a read may fail, but a read that succeeds returns the object
+    let flaky = ci % 2 == 1;
+    let flaky_store = Arc::new(util::FlakyBodyStore { inner: inner.clone(), every: 7, counter: Default::default(), cuts: Default::default() });
+    let backing: Arc<dyn ObjectStore> = if flaky { flaky_store.clone() } else { inner.clone() };
+    let store = Arc::new(CachedObjectStore::new(backing, cache.clone()));
     let sizes: Vec<usize> = vec![0, 1, 7, 50, 99, 100, 101, 500, 999, 1_000, 4_096, 20_000, 70_000, 200_000];
     let written: Arc<Mutex<Vec<String>>> = Arc::new(Mutex::new(vec![]));
     let read_before: Arc<Mutex<std::collections::HashSet<String>>> = Arc::new(Mutex::new(Default::default()));
@@ -261,6 +266,10 @@ async fn one_config(ctx: &Ctx, out: &mut Outcome, ci: usize, l1: usize, l2: Opti
                             ));
                         }
                     }
+                    Err(_) if flaky => {
+                        // the download may have been one of the cut ones: an error is an answer
+                        stats.lock().5 += 0;
+                    }
                     Err(e) => {
                         violations.lock().push((
                             "C16/read-of-existing-object-failed".into(),
@@ -279,6 +288,9 @@ async fn one_config(ctx: &Ctx, out: &mut Outcome, ci: usize, l1: usize, l2: Opti
     let st = stats.lock().clone();
     out.evaluations += st.0 + st.1 + st.2 + st.3;
     out.count("reads.whole", st.0);
+    if flaky {
+        out.count("backing_downloads_cut_in_the_middle_of_the_body", flaky_store.cuts.load(std::sync::atomic::Ordering::Relaxed));
+    }
     out.count("reads.before_the_object_existed", st.5);
     out.count("reads.ranged", st.1);
     out.count("reads.get_opts", st.2);
